@@ -2,7 +2,7 @@
 import math
 from fractions import Fraction
 from .. import tlc, laws
-from ..common import EXACT_EMBS, DEC_EMBS
+from ..common import EXACT_EMBS, DEC_EMBS, EXTREME_EMBS
 
 RULE = ("M: SlicedWasserstein.tla -- sorted matching attains the 1-D transport minimum over all bijections (all pairs of sequences of "
         "length <=4, thorough 5), a common value on both sides is irrelevant, symmetry. Exact anchor: for every tabulated number of directions M (1..16, 25, 49, 50, 64, 98, 100, 103; cos/sin of (1/2+i/M) pi "
@@ -25,7 +25,7 @@ def run(ctx):
     from .. import tlaps
     tlaps.attach(ctx, "SortedExchange", "for ALL integers: uncrossing two matched pairs never increases the 1-D cost; a common translation leaves every pair cost unchanged")
     rng = ctx.rng
-    embs = EXACT_EMBS[:4] + DEC_EMBS[:3] + EXACT_EMBS[4:6]      # incl. scales 2^-50 and 2^30
+    embs = EXACT_EMBS[:4] + DEC_EMBS[:3] + EXACT_EMBS[4:6] + EXTREME_EMBS     # incl. scales 2^-50, 2^30, 2^60 and 2^-100
     specs = []
     for i in range(50 if quick else 500):
         neg = i % 2 == 1
@@ -40,7 +40,7 @@ def run(ctx):
         specs.append(dict(session=sess, fn="sw", emb=embs[i % len(embs)], M=M, anchor=1, aux=[], zerotol=Fraction(1, 10 ** 9)))
     for i in range(16 if quick else 150):
         sess = laws.make_session(rng, 2, 14 if quick else 50, rng.choice([6, 12, 30]), neg=(i % 2 == 1), with_empty=True)
-        specs.append(dict(session=sess, fn="sw", emb=embs[i % len(embs)], M=rng.choice([1, 2, 3, 5, 10, 50, 60]), anchor=0, aux=["W"] if i % 2 == 0 else [], zerotol=Fraction(1, 10 ** 9)))
+        specs.append(dict(session=sess, fn="sw", emb=embs[i % len(embs)], M=rng.choice([1, 2, 3, 5, 10, 50, 60]), anchor=0, aux=["W"] if i % 2 == 0 or embs[i % len(embs)] in EXTREME_EMBS else [], zerotol=Fraction(1, 10 ** 9)))
     # the code keeps its direction vectors in float32: every projected coordinate carries a relative error of about 2e-8, so
     # "unchanged" / "zero" / "equal" are granted 1e-6 of the largest coordinate magnitude times the number of points (stated allowance)
     # argument objects: fresh float arrays per call / ONE set of float64 arrays, integer-dtype arrays (where the embedded coordinates are
